@@ -19,6 +19,7 @@ mod io;
 mod rng;
 mod rwlock;
 mod settle;
+mod sharedq;
 mod robs_map;
 mod robs_set;
 mod rtc;
@@ -194,6 +195,7 @@ fn main() {
         "port" => port::run(seed, count, &extra, &mut out),
         "endpoint" => endpoint::run(seed, count, &extra, &mut out),
         "net" => net::run(seed, count, &extra, &mut out),
+        "sharedq" => sharedq::run(seed, count, &extra, &mut out),
         "robs_deque" => robs_deque::run(seed, count, &extra, &mut out),
         "robs_list" => robs_list::run(seed, count, &extra, &mut out),
         "robs_lag" => robs_lag::run(seed, count, &extra, &mut out),
